@@ -76,6 +76,8 @@ class InterpProp(Prop):
                 history = {'base': base, 'edits': edits}
         enc = ChartEnc(sc)
         ops = [['create', 0, self.ignore_contract, [], 0]] + self.make_ops(rnd, kn, sc)
+        if self.decoy and rnd.random() < self.decoy:
+            ops = self.add_decoy(rnd, ops)
         payload = {'kind': 'interp', 'charts': [enc.json], 'ops': ops}
         if g.bad_construction:
             payload['construction_spec'] = g.bad_construction[:3]
@@ -85,6 +87,24 @@ class InterpProp(Prop):
 
     def post_build(self, rnd, g, sc):
         pass
+
+    decoy = 0.0     # share of cases in which a second interpreter of the same statechart object is stepped in between
+
+    def add_decoy(self, rnd, ops):
+        """a second interpreter of the very same Statechart object (slot 1), queued and executed at times of its own
+        between the operations of the first: nothing of it may show in the first (whatever is remembered per
+        interpreter — times, memories, `__old__`, sent events, flags — is per interpreter)"""
+        out = [ops[0], ['create', 0, ops[0][2], ops[0][3], 0]]
+        t2 = 0
+        for op in ops[1:]:
+            out.append(op)
+            while rnd.random() < 0.4:
+                if rnd.random() < 0.4:
+                    out.append(['queue', 1, {'ev': rnd.choice(gen.EVENTS), 'data': [['v', rnd.randint(0, 4)], ['b', rnd.random() < 0.5]]}])
+                else:
+                    t2 += rnd.choice([0, 1, 2, 3, 5])
+                    out.append(['exec', 1, t2])
+        return out
 
     def rebuild(self, payload):
         if payload.get('history'):
